@@ -344,6 +344,11 @@ def _lock_file_sessions(ctx):
                 tgt.discard(rnd.choice(sorted(tgt)))
             elif k < 0.8:
                 tgt.clear()
+            if rnd.random() < 0.5:
+                # plain entries of the very same dict are re-assigned as well (the next interpreter of a resolver loop)
+                fv = rnd.choice(["3.7.9", "3.8.0", "3.9.1", "3.12.1"])
+                env["python_full_version"] = fv
+                env["python_version"] = ".".join(fv.split(".")[:2])
             for t in rnd.sample(texts, 4):
                 ctx.cases += 1
                 ctx.current_case = {"kind": "text", "text": t, "stratum": "main", "context": "lock_file"}
